@@ -4,6 +4,9 @@ PLAN = dict(
     build=["vk"],
     mc=[dict(module="MC_Coalescer", cfg_quick="MC_Coalescer_quick.cfg", cfg_thorough="MC_Coalescer.cfg",
              workers_quick=6, workers_thorough=12, timeout_quick=600, timeout_thorough=5400)],
+    gen=[dict(module="Gen_Coalescer", cfg="Gen_Coalescer.cfg", bin="vk", args=["c03replay"], workers=1,
+              args_quick=["-simulate", "num=400", "-depth", "12"], args_thorough=["-simulate", "num=6000", "-depth", "12"],
+              timeout_quick=300, timeout_thorough=1500)],
     drive=[dict(bin="vk", args=["c03"])],
     tv=[
         dict(glob="select-*.ndjson", module="Trace_Select", cfg="Trace_Select.cfg", corrupt=["out", "err"]),
